@@ -79,3 +79,31 @@ Definition parse_predicate (p : str) : option (cmpop * str) :=
   end.
 Definition parse_predicates (s : str) : option (list (cmpop * str)) :=
   map_opt parse_predicate (split_char 44%N s).
+
+(* ---- VersionPredicate / is_compatible on STRINGS.  packaging.version.Version is a
+   contract: [vparse s = None] stands for InvalidVersion (a subclass of ValueError),
+   [vle]/[veq] for its <= and ==, [major] for .major.  __init__ parses every part
+   (regex, then Version) in order; every failure is a ValueError. ---- *)
+Section Predicate.
+  Variable V : Type.
+  Variable vparse : str -> option V.
+  Variable vle veq : V -> V -> bool.
+  Variable major : V -> Z.
+  Definition parse_version_of (p : cmpop * str) : option (cmpop * V) :=
+    match vparse (snd p) with Some v => Some (fst p, v) | None => None end.
+  Definition predicate_init (s : str) : res (list (cmpop * V)) :=
+    match parse_predicates s with
+    | None => Exn ValueError
+    | Some l => match map_opt parse_version_of l with Some l' => Ok l' | None => Exn ValueError end
+    end.
+  Definition predicate_satisfied_by (preds : list (cmpop * V)) (vs : str) : res bool :=
+    match vparse vs with Some v => Ok (satisfied_by V vle veq preds v) | None => Exn ValueError end.
+  Definition is_compatible_str (req cur : str) (same_major : bool) : res bool :=
+    match vparse req with
+    | None => Exn ValueError
+    | Some r => match vparse cur with
+                | None => Exn ValueError
+                | Some c => Ok (is_compatible V vle major r c same_major)
+                end
+    end.
+End Predicate.
